@@ -74,7 +74,43 @@ def finite_closure(pc_goal_terms, sizes):
 FUELS = (2, 3, 4, 6)
 
 
+def split_goal(goal):
+    """goal = And(g1..gn) or Implies(a, And(g1..gn)) -> list of sub-goals, else None"""
+    if z3.is_and(goal) and goal.num_args() > 1:
+        return list(goal.children())
+    if z3.is_implies(goal) and z3.is_and(goal.arg(1)) and goal.arg(1).num_args() > 1:
+        return [z3.Implies(goal.arg(0), g) for g in goal.arg(1).children()]
+    return None
+
+
+class _Sub:
+    def __init__(self, pc, goal):
+        self.pc, self.goal = pc, goal
+
+
 def discharge(axioms, obl, seed=0, want_model=True, cross=False, quick_only=False):
+    parts = split_goal(obl.goal) if not quick_only else None
+    if not parts:
+        return discharge1(axioms, obl, seed, want_model, cross, quick_only)
+    # a conjunction is proved conjunct by conjunct (measured: the conjuncts go through in
+    # milliseconds where the conjunction times out)
+    t0 = time.time()
+    out = None
+    for g in parts:
+        r = discharge(axioms, _Sub(obl.pc, g), seed, want_model, cross, False)
+        if out is None:
+            out = dict(r)
+        if r['status'] == 'refuted':
+            out = dict(r)
+            break
+        if r['status'] != 'discharged' and out['status'] == 'discharged':
+            out = dict(r)
+    out['time'] = round(time.time() - t0, 4)
+    out['split'] = len(parts)
+    return out
+
+
+def discharge1(axioms, obl, seed=0, want_model=True, cross=False, quick_only=False):
     """-> dict(status=discharged|refuted|undecided, backend, time, model)
 
     `unsat` at any fuel = discharged.  `sat` is a refutation only when the query mentions no
@@ -91,6 +127,15 @@ def discharge(axioms, obl, seed=0, want_model=True, cross=False, quick_only=Fals
         uses_defs = s.num_unfolded > 0
         r = s.check()
         res['fuel'] = fuel
+        if r != z3.unsat and fuel == FUELS[0] and not quick_only and len(obl.pc) > 12:
+            # relevance pass: many obligations need none of the quantified hypotheses
+            # (definitions of ghost predicates, rely conditions); fewer hypotheses is sound
+            slim = [f for f in obl.pc if not _has_quant(f)]
+            if len(slim) < len(obl.pc):
+                s0 = mk_solver(axioms, slim, obl.goal, seed, timeout=1500, fuel=2)
+                if s0.check() == z3.unsat:
+                    res.update(status='discharged', time=round(time.time() - t0, 4), slim=True)
+                    return res
         if r == z3.unsat or not uses_defs:
             break
         if r == z3.unknown and time.time() - t0 > (Z3_TIMEOUT_MS / 1000.0):
